@@ -79,8 +79,11 @@ def digest(run, pl, outs, prop):
                     run.candidate("SlowCall", "a call took %d ms (%s)" % (e["ms"], name), sig={"mkind": "SlowCall"}, detail=e)
         with open(out, "w") as f:
             f.writelines(keep)
-        pl.pending.append(out)
         pr = info.get(name, {}).get("proc", {})
+        if pr.get("exit", 0) == 0:
+            pl.pending.append(out)
+        # (the histories of a process that hung or died are incomplete and full of failed calls: they are
+        # reported as such below, not handed to TLC, whose admissible sets grow with every uncertain outcome)
         sm = info.get(name, {}).get("summary")
         if pr.get("exit", 0) != 0:
             crashed = "Batch out of sync" in pr.get("output", "")
